@@ -21,7 +21,8 @@ DATA_CARRIERS = ("nd_f8", "list_nan", "list_none", "list_mixed", "tuple_nan", "t
                  "ma_nan", "ma_adv", "ma_nomask", "ma_i8", "series", "series_shift", "series_none", "dask")
 TIME_CARRIERS = ("dt64ns", "dt64us", "dt64ms", "dt64s", "dt64m", "list_datetime", "list_timestamp", "list_dt64", "dtindex", "dtindex_utc",
                  "series_naive", "series_utc", "series_shift_naive", "epoch_int_list", "epoch_float_list", "epoch_int_nd", "epoch_float_nd",
-                 "tuple_datetime", "dtindex_freq", "dtindex_utc_us", "dtindex_utc_s", "series_utc_ms", "dtindex_naive_s")
+                 "tuple_datetime", "dtindex_freq", "dtindex_utc_us", "dtindex_utc_s", "series_utc_ms", "dtindex_naive_s", "epoch_i4_nd", "epoch_u4_nd",
+                 "series_obj_utc", "index_obj_utc", "series_obj_naive")
 
 META = dict(
     rule="for each of the 11 tests (1-2 parameter sets): every logical series of length 0..N over {1, 3, missing} (range tests additionally over the float32 roundings of non-dyadic limits; rate_of_change "
@@ -122,7 +123,7 @@ def mk_time(secs, c):
     if c == "dt64m" and any(float(s) % 60 for s in secs):
         return None  # not on whole minutes
     frac = any(float(s) != int(s) for s in secs)
-    if frac and c in ("dt64s", "list_dt64", "epoch_int_list", "epoch_int_nd"):
+    if frac and c in ("dt64s", "list_dt64", "epoch_int_list", "epoch_int_nd", "epoch_i4_nd", "epoch_u4_nd"):
         return None  # the carrier cannot hold fractional seconds
     base = np.array([int(round(float(s) * 1000)) for s in secs], dtype="int64").astype("datetime64[ms]")
     if c.startswith("dt64"):
@@ -169,6 +170,18 @@ def mk_time(secs, c):
         return [int(s) for s in secs]
     if c == "epoch_float_list":
         return [float(s) for s in secs]
+    if c in ("epoch_i4_nd", "epoch_u4_nd"):
+        if frac:
+            return None
+        return np.array(secs, dtype="int32" if c == "epoch_i4_nd" else "uint32")
+    if c in ("series_obj_utc", "index_obj_utc", "series_obj_naive"):
+        # pandas containers of dtype object holding python datetimes (UTC-aware or naive)
+        import datetime as _dt
+
+        if c == "series_obj_naive":
+            return pd.Series(pyd, dtype=object)
+        aware = [d.replace(tzinfo=_dt.timezone.utc) for d in pyd]
+        return pd.Series(aware, dtype=object) if c == "series_obj_utc" else pd.Index(aware, dtype=object)
     if c == "epoch_int_nd":
         return np.array(secs, dtype="int64")
     if c == "epoch_float_nd":
